@@ -15,7 +15,7 @@ if ! go test -vet=off -count=1 ./... >"$W/.suite" 2>&1; then echo "REFAC $NAME: 
 mkdir -p /verif/refactors/$NAME; cp "$SRC/patch.diff" /verif/refactors/$NAME/; [ -f "$SRC/notes.txt" ] && cp "$SRC/notes.txt" /verif/refactors/$NAME/
 cd /verif
 alarms=""
-for p in $(bin/orbcheck -list); do
+for p in ${PROPS:-$(bin/orbcheck -list)}; do
   [ "$p" = "DBG" ] && continue
   out=$(bin/orbcheck -repo "$W" -verif /verif -prop $p -tier quick -no-evidence 2>&1); rc=$?
   if [ $rc -ne 0 ]; then alarms="$alarms $p[$(echo "$out" | grep -A1 '^VIOLATION' | grep 'kind=' | head -2 | sed 's/^ *//' | cut -c1-150 | tr '\n' ';')]"; fi
